@@ -85,7 +85,13 @@ pub fn pick_case(prop: &str, seed: u64, thorough: bool) -> Case {
             n = *rng.pick(&[1usize, 2, 16]);
         }
     }
-    let len = history_len(prop, &mut rng, thorough);
+    let mut len = history_len(prop, &mut rng, thorough);
+    if prop == "C08" && rng.chance(1, 250) {
+        // an image of more than a megabyte although every piece of it is small ("for every N and capacity")
+        n = *rng.pick(&[1usize, 2]);
+        cap = rng.range(25_000, 45_000);
+        len = rng.range(8, 25);
+    }
     Case { n, cap, profile, len, seed: rng.next() }
 }
 
